@@ -102,11 +102,12 @@ func (f *fsm) step(state, sym string) (string, bool) {
 // ---- network-spec ---------------------------------------------------------------
 
 // Handshake. StPropose (client) / StConfirm (server) / StDone.
-//   StPropose --MsgProposeVersions--> StConfirm
-//   StConfirm --MsgAcceptVersion | MsgRefuse | MsgQueryReply--> StDone
-//   StConfirm --MsgReplyVersions--> StDone   (TCP simultaneous open: "must not be
-//       explicitly sent; can only be received as a copy of MsgProposeVersions";
-//       it has the wire encoding of MsgProposeVersions, tag 0)
+//
+//	StPropose --MsgProposeVersions--> StConfirm
+//	StConfirm --MsgAcceptVersion | MsgRefuse | MsgQueryReply--> StDone
+//	StConfirm --MsgReplyVersions--> StDone   (TCP simultaneous open: "must not be
+//	    explicitly sent; can only be received as a copy of MsgProposeVersions";
+//	    it has the wire encoding of MsgProposeVersions, tag 0)
 var specHandshake = mkFSM("handshake", "network-spec: Handshake mini-protocol", "StPropose",
 	[]stDecl{st("StPropose", agClient), st("StConfirm", agServer), st("StDone", agNone)},
 	[]tagDecl{tg("ProposeVersions", 0), tg("AcceptVersion", 1), tg("Refuse", 2), tg("QueryReply", 3)},
